@@ -54,6 +54,10 @@ class Monitor(object):
             ctx.violation('raise:%s' % type(out.value).__name__, case, 'a mark', repr(out))
             return
         p = out.value
+        if isinstance(p, (int, float)) and p < 0 and O.kind_of(e) == 't' and t > 1500:
+            # beyond the property's target range and beyond the score of a zero time: no mark can reach it
+            ctx.count('unspecified.target-beyond-the-score-of-a-zero-time')
+            return
         n = int(round(p * 100)) if isinstance(p, (int, float)) else None
         if n is None or abs(p * 100 - n) > 1e-6 or n < 0:
             ctx.violation('answer-off-grid', case, 'mark on the 0.01 grid', repr(p))
